@@ -284,7 +284,12 @@ def run(ctx):
                 n_calls += 1
                 cf = cf or CFG(f.node)
                 def tentative(n, lab):
-                    return n.kind == "test" and lab is True and "charEncoding[1] == 'tentative'" in norm(n.ast)
+                    # `== "tentative"` on its true edge, `!= "tentative"` on its false edge (early return), `== "certain"` on its false edge
+                    if n.kind != "test":
+                        return False
+                    t = norm(n.ast)
+                    return (lab is True and "charEncoding[1] == 'tentative'" in t) or (lab is False and "charEncoding[1] != 'tentative'" in t) or \
+                        (lab is False and "charEncoding[1] == 'certain'" in t and " or " not in t and " and " not in t)
                 okc = all(cf.dominated_by(s, tentative) for s in cf.locate(c))
                 r.check("C06.4", okc, "%s::changeEncoding-call@%s" % (f.qual, norm(c.args[0])[:30] if c.args else ""),
                         "%s:%d" % (f.module.rel, c.lineno),
